@@ -235,7 +235,28 @@ func genVectorPdf(t *core.Tape, depth int) (st.VectorPdf, string) {
 			name += nm + ","
 		}
 		name += ")"
-		d, err = vd.NewHmm(weights(t, m), stochastic(t, m), stateMap, ed)
+		var h *vd.Hmm
+		h, err = vd.NewHmm(weights(t, m), stochastic(t, m), stateMap, ed)
+		if err == nil {
+			// start and final state restrictions are part of the model.  One
+			// state each at most: the library keeps them in a Go map and writes
+			// them out in map order, so a set of two or more states gives a
+			// different (equivalent) text on every export -- which no seed
+			// controls and which would make runs unrepeatable
+			if t.Bool(1, 2) {
+				ss := []int{t.Choose(m)}
+				if h.SetStartStates(ss) == nil {
+					name += fmt.Sprintf("start=%v,", ss)
+				}
+			}
+			if t.Bool(1, 2) {
+				fs := []int{t.Choose(m)}
+				if h.SetFinalStates(fs) == nil {
+					name += fmt.Sprintf("final=%v,", fs)
+				}
+			}
+			d = h
+		}
 	case 4:
 		name = fmt.Sprintf("skew normal(%d)", n)
 		xi, alpha, scale := ad.NullDenseReal64Vector(n), ad.NullDenseReal64Vector(n), ad.NullDenseReal64Vector(n)
@@ -455,6 +476,87 @@ func (w *simWriter) Write(p []byte) (int, error) {
 	return w.buf.Write(p)
 }
 
+// probeDensity evaluates both distributions at one drawn point and renders
+// the outcomes ("-1.234", "error", "panic"); values within 1e-9 are rendered
+// identically.
+func probeDensity(t *core.Tape, x, y interface{}) (string, string, string) {
+	val := func() float64 { return []float64{0, 1, 2, 3, 0.5, 1.5, -1, 2.5}[t.Choose(8)] }
+	render := func(f func(r ad.Scalar) error) (string, float64) {
+		r := ad.NewReal64(0)
+		var err error
+		if pv, _ := core.Try(func() { err = f(r) }); pv != nil {
+			return "panic", 0
+		}
+		if err != nil {
+			return "error", 0
+		}
+		return "", r.GetFloat64()
+	}
+	cmp := func(fa, fb func(r ad.Scalar) error) (string, string) {
+		sa, va := render(fa)
+		sb, vb := render(fb)
+		if sa != "" || sb != "" {
+			if sa == "" {
+				sa = fmt.Sprint(va)
+			}
+			if sb == "" {
+				sb = fmt.Sprint(vb)
+			}
+			return sa, sb
+		}
+		if va == vb || (math.IsNaN(va) && math.IsNaN(vb)) || math.Abs(va-vb) <= 1e-9*(1+math.Abs(va)) {
+			return "same", "same"
+		}
+		return fmt.Sprint(va), fmt.Sprint(vb)
+	}
+	switch a := x.(type) {
+	case st.ScalarPdf:
+		b, ok := y.(st.ScalarPdf)
+		if !ok {
+			return "a scalar density", fmt.Sprintf("%T", y), "-"
+		}
+		v := ad.NewReal64(val())
+		sa, sb := cmp(func(r ad.Scalar) error { return a.LogPdf(r, v) }, func(r ad.Scalar) error { return b.LogPdf(r, v) })
+		return sa, sb, fmt.Sprint(v.GetFloat64())
+	case st.VectorPdf:
+		b, ok := y.(st.VectorPdf)
+		if !ok {
+			return "a vector density", fmt.Sprintf("%T", y), "-"
+		}
+		n := a.Dim()
+		if n <= 0 {
+			n = t.Range(1, 4)
+		}
+		xs := make([]float64, n)
+		for i := range xs {
+			xs[i] = val()
+		}
+		v := ad.NewDenseFloat64Vector(xs)
+		sa, sb := cmp(func(r ad.Scalar) error { return a.LogPdf(r, v) }, func(r ad.Scalar) error { return b.LogPdf(r, v) })
+		return sa, sb, fmt.Sprint(xs)
+	case st.MatrixPdf:
+		b, ok := y.(st.MatrixPdf)
+		if !ok {
+			return "a matrix density", fmt.Sprintf("%T", y), "-"
+		}
+		rr, cc := a.Dims()
+		if rr <= 0 {
+			rr = t.Range(1, 3)
+		}
+		if cc <= 0 {
+			cc = t.Range(1, 3)
+		}
+		xs := make([]float64, rr*cc)
+		for i := range xs {
+			xs[i] = val()
+		}
+		v := ad.NewDenseFloat64Matrix(xs, rr, cc)
+		sa, sb := cmp(func(r ad.Scalar) error { return a.LogPdf(r, v) }, func(r ad.Scalar) error { return b.LogPdf(r, v) })
+		return sa, sb, fmt.Sprintf("%dx%d %v", rr, cc, xs)
+	}
+	return "", "", "-"
+}
+
 /* the scenario --------------------------------------------------------------------------- */
 
 func runConfig(c *core.Ctx, faults bool) {
@@ -523,6 +625,15 @@ func runConfig(c *core.Ctx, faults bool) {
 						}
 					}
 				}
+			}
+		}
+		// observably equal: the densities agree at drawn probe points (what
+		// a configuration carries beyond its parameter vector -- state
+		// restrictions, state maps, dimensions -- shows here)
+		for k := 0; k < 4; k++ {
+			a, b, where := probeDensity(t, d.d, got)
+			if a != b {
+				fail("round-trip", "not-equal|density", "%s evaluates to %s at %s, after export/import to %s; config: %s", d.name, a, where, b, describeBytes(data))
 			}
 		}
 		// path based variant
